@@ -5,6 +5,7 @@ import (
 	"encoding/json"
 	"fmt"
 	"sort"
+	"strings"
 	"time"
 
 	"github.com/Oneledger/protocol/action"
@@ -638,6 +639,7 @@ func c04(args []string) int {
 	}
 	var done, harnessErr, skippedMut, rejected int
 	var errSamples []string
+	payloadReasons := map[string]map[string]int{}
 	distinct := map[string]bool{}
 	opClass := func(name string) string {
 		// operator class for signatures: strip concrete positions
@@ -677,6 +679,21 @@ func c04(args []string) int {
 				rep.Violation(fmt.Sprintf("C04|checktx-accepts-mutant|kind=%s|op=%s", sc.Kind, opClass(j.Name)), fmt.Sprintf("CheckTx returned code 0 for mutant %q of a valid %s", j.Name, sc.Kind), j)
 			} else {
 				rejected++
+				// reachability diagnostic: WHY the mempool check refused the payload mutants of each kind (an operator
+				// aimed at the signature check is blind if all its mutants die earlier, e.g. in an encoding test)
+				if strings.HasPrefix(j.Name, "payload:") {
+					reason := r.Log
+					if i := strings.Index(reason, `"msg":"`); i >= 0 {
+						reason = reason[i+7:]
+					}
+					if len(reason) > 36 {
+						reason = reason[:36]
+					}
+					if payloadReasons[sc.Kind] == nil {
+						payloadReasons[sc.Kind] = map[string]int{}
+					}
+					payloadReasons[sc.Kind][reason]++
+				}
 			}
 			return
 		}
@@ -698,6 +715,7 @@ func c04(args []string) int {
 	rep.Set("operators_per_kind", opsPerKind)
 	rep.Set("mutants_without_effect_or_rejected", rejected)
 	rep.Set("mutants_skipped_same_content", skippedMut)
+	rep.Set("payload_mutant_rejection_reasons_per_kind", payloadReasons)
 	rep.Set("harness_errors", harnessErr)
 	rep.Set("harness_error_samples", errSamples)
 	rep.Set("not_run_due_to_deadline", skipped)
